@@ -206,7 +206,8 @@ fn run_self(args: &[&str], bin: Option<&std::path::Path>) -> Result<String, Stri
 
 /// Scan rcgen's own source for shared mutable state (the statement of what a scheduler can see).
 fn interception_audit() -> serde_json::Value {
-    let dir = std::path::Path::new("/repo/rcgen/src");
+    let dir_buf = repo_root().join("rcgen/src");
+    let dir = dir_buf.as_path();
     let tokens = ["static mut", "Cell<", "RefCell", "UnsafeCell", "Mutex", "RwLock", "Atomic", "OnceLock", "OnceCell", "Once::", "LazyLock", "LazyCell", "lazy_static", "thread_local", "Condvar", "mpsc", "std::thread", "unsafe "];
     let mut hits = Vec::new();
     let mut forbid_unsafe = false;
